@@ -159,6 +159,7 @@ def run(ctx):
     simple_content(ctx)
     same_name_contexts(ctx)
     nil_with_attributes(ctx)
+    typed_members_and_repeating_groups(ctx)
     outlined_presentations(ctx)
     times_and_mixed_use(ctx)
     arrays_of_arrays_and_two_ports(ctx)
@@ -395,6 +396,46 @@ def nil_with_attributes(ctx):
         if not K.same_value(got, exp):
             ctx.fail("a nilled element is not decoded to None / its attributes are not kept under underscore names "
                      "(whatever prefix the schema-instance namespace has)", meta, repr(got), repr(exp))
+
+
+def typed_members_and_repeating_groups(ctx):
+    """xsi:type on a member below the top level selects the type there too - for a member declared xsd:anyType,
+    xsd:anySimpleType or a built-in the named type derives from; and the members of a repeating group (each declared
+    once) come back as flat lists however often the group occurs."""
+    import decimal
+    schema = ('<xsd:element name="f"><xsd:complexType><xsd:sequence/></xsd:complexType></xsd:element>'
+              '<xsd:complexType name="H"><xsd:sequence><xsd:element name="v" type="xsd:int"/></xsd:sequence></xsd:complexType>'
+              '<xsd:complexType name="O"><xsd:sequence><xsd:element name="any1" type="xsd:anyType"/>'
+              '<xsd:element name="any2" type="xsd:anyType"/><xsd:element name="d" type="xsd:decimal"/>'
+              '<xsd:element name="s" type="xsd:anySimpleType"/><xsd:sequence maxOccurs="unbounded">'
+              '<xsd:element name="k" type="xsd:string"/><xsd:element name="n" type="xsd:int"/></xsd:sequence>'
+              '<xsd:choice minOccurs="0" maxOccurs="unbounded"><xsd:element name="ca" type="xsd:int"/>'
+              '<xsd:element name="cb" type="xsd:string"/></xsd:choice></xsd:sequence></xsd:complexType>'
+              '<xsd:element name="fResponse"><xsd:complexType><xsd:sequence><xsd:element name="o" type="x:O"/>'
+              '</xsd:sequence></xsd:complexType></xsd:element>')
+    client = wsdlkit.client(wsdlkit.wsdl_doc(schema, "f", "fResponse"))
+    for reps in (2, 3, 4, 7):
+        for xp in ("xsi", "i"):
+            data = ('<e:Envelope xmlns:e="%s" xmlns:%s="%s" xmlns:xsd="http://www.w3.org/2001/XMLSchema"><e:Body>'
+                    '<fResponse xmlns="%s" xmlns:x="%s"><o><any1 %s:type="xsd:int">5</any1><any2 %s:type="x:H"><v>9</v></any2>'
+                    '<d %s:type="xsd:int">7</d><s %s:type="xsd:boolean">true</s>%s%s</o></fResponse></e:Body></e:Envelope>'
+                    % (xmlread.ENV11, xp, xmlread.XSI, wsdlkit.TNS, wsdlkit.TNS, xp, xp, xp, xp,
+                       "".join("<k>k%d</k><n>%d</n>" % (i, i) for i in range(reps)),
+                       "".join("<ca>%d</ca>" % i for i in range(reps)))).encode()
+            meta = {"stream": "typed-members-and-repeating-groups", "occurrences": reps, "xsi_prefix": xp, "reply": data.decode()}
+            ctx.case(common.canon(meta), True)
+            try:
+                r = client.service.f(__inject={"reply": data})
+                got = [[type(r.any1).__name__, r.any1], [type(r.any2).__name__, getattr(r.any2, "v", None)],
+                       [type(r.d).__name__, r.d], [type(r.s).__name__, r.s], [str(x) for x in r.k], list(r.n), list(r.ca)]
+            except Exception as e:
+                ctx.fail("decoding a schema-valid reply raised", meta, "%s: %s" % (type(e).__name__, e), "a value")
+                continue
+            want = [["int", 5], ["H", 9], ["int", 7], ["bool", True], ["k%d" % i for i in range(reps)], list(range(reps)),
+                    list(range(reps))]
+            if got != want:
+                ctx.fail("a member typed by xsi:type, or the members of a repeating group, decode to something else than "
+                         "the value the document encodes", meta, repr(got), repr(want))
 
 
 CTX_TYPES = ["int", "string", "boolean", "decimal", "long"]
